@@ -1040,6 +1040,108 @@ impl CrashJudge<'_> {
     }
 }
 
+fn copy_tree(from: &Path, to: &Path) -> std::io::Result<()> {
+    std::fs::create_dir_all(to)?;
+    for e in std::fs::read_dir(from)? {
+        let e = e?;
+        let dst = to.join(e.file_name());
+        if e.file_type()?.is_dir() {
+            copy_tree(&e.path(), &dst)?;
+        } else {
+            std::fs::copy(e.path(), &dst)?;
+        }
+    }
+    Ok(())
+}
+
+impl CrashJudge<'_> {
+    /// The restarted process goes on working: on a COPY of the crash state (the enumeration continues on the
+    /// original) a new store takes a checkpoint C of its own state, the clock still showing the millisecond of the
+    /// interrupted checkpoint B. C is a different checkpoint taken at a different moment: afterwards restore(B's id)
+    /// must still give B's complete state or an error (never C's), restore(C) gives C's state, C's id is none of the
+    /// earlier ids, and every earlier checkpoint still restores exactly.
+    fn judge_restart(&mut self, state: &str, b_complete: bool, b_left_a_trace: bool) -> Result<(), Verdict> {
+        let copy = DirGuard(self.path.with_extension("restart"));
+        let _ = std::fs::remove_dir_all(&copy.0);
+        if let Err(e) = copy_tree(self.path, &copy.0) {
+            return Err(Verdict::fail("harness-io", format!("copy crash state: {}", e)));
+        }
+        let mut st = StateStore::new(StateBackend::File { path: copy.0.clone() });
+        let _ = st.put("~restarted", Value::Integer(11));
+        let c_rec = observe(&st, self.keys)?;
+        let c_id = match st.checkpoint("after-restart") {
+            Ok(id) => id,
+            Err(_) => return Ok(()), // refusing to checkpoint next to the leftovers is not a violation
+        };
+        if c_id == self.b.id || self.earlier.iter().any(|(a, _)| a.id == c_id) {
+            // handing out the id of an earlier or interrupted checkpoint: only a violation if it makes them indistinguishable,
+            // which the restores below decide; remember it for the message
+        }
+        self.restores += 1;
+        // without a trace on disk (crash before create_dir_all) nothing identifies the interrupted checkpoint: its id was
+        // never returned to anybody, and a new checkpoint may carry it
+        let r = if b_left_a_trace { st.restore(&self.b.id) } else { Err(rust_rule_engine::errors::RuleEngineError::ParseError { message: "not asked: no trace of the interrupted checkpoint on disk".into() }) };
+        let obs = observe(&st, self.keys)?;
+        match r {
+            Ok(()) if same_obs(&obs, &self.b.rec) => {}
+            Ok(()) => {
+                return Err(Verdict::fail(
+                    "crash:interrupted-id-restores-another-state-after-restart",
+                    format!(
+                        "crash state [{}]: a restarted store took checkpoint {:?} in the same millisecond; restore of the interrupted checkpoint {:?} then returned Ok with {} but its complete state is {} (the new checkpoint recorded {})",
+                        state,
+                        c_id,
+                        self.b.id,
+                        fmt_obs(&obs),
+                        fmt_obs(&self.b.rec),
+                        fmt_obs(&c_rec)
+                    ),
+                ))
+            }
+            Err(e) => {
+                if b_complete && b_left_a_trace {
+                    return Err(Verdict::fail(
+                        "crash:complete-checkpoint-does-not-restore",
+                        format!("state [{}], after a restarted store took checkpoint {:?}: checkpoint {:?} is completely written but restore returned Err: {}", state, c_id, self.b.id, e),
+                    ));
+                }
+            }
+        }
+        self.restores += 1;
+        if c_id != self.b.id {
+            let r = st.restore(&c_id);
+            let obs = observe(&st, self.keys)?;
+            if r.is_err() || !same_obs(&obs, &c_rec) {
+                return Err(Verdict::fail(
+                    "crash:checkpoint-after-restart-does-not-restore",
+                    format!("crash state [{}]: checkpoint {:?} taken by the restarted store restores to {:?} / {} but recorded {}", state, c_id, r.err(), fmt_obs(&obs), fmt_obs(&c_rec)),
+                ));
+            }
+        }
+        for (a, suffix) in &self.earlier {
+            self.restores += 1;
+            let r = st.restore(&a.id);
+            let obs = observe(&st, self.keys)?;
+            if r.is_err() || !same_obs(&obs, &a.rec) {
+                return Err(Verdict::fail(
+                    format!("crash:earlier-checkpoint-damaged-after-restart{}", mm_suffix(suffix, &obs, &a.rec)),
+                    format!(
+                        "crash state [{}] of checkpoint {:?}, after a restarted store took checkpoint {:?}: restore of the earlier checkpoint {:?} gives {:?} / {} but it recorded {}",
+                        state,
+                        self.b.id,
+                        c_id,
+                        a.id,
+                        r.err(),
+                        fmt_obs(&obs),
+                        fmt_obs(&a.rec)
+                    ),
+                ));
+            }
+        }
+        Ok(())
+    }
+}
+
 pub fn run_crash(s: &mut Src, ctx: &mut Ctx) -> Verdict {
     let mut fl = GenFlags::default();
     let case = gen_crash(s, ctx, &mut fl);
@@ -1076,6 +1178,9 @@ pub fn run_crash(s: &mut Src, ctx: &mut Ctx) -> Verdict {
 
     // (0) the checkpoint as completed: judged before anything is assumed about the layout
     if let Err(v) = j.judge("complete, retention done", true, true) {
+        return v;
+    }
+    if let Err(v) = j.judge_restart("complete, retention done", true, true) {
         return v;
     }
     // the write sequence the enumeration assumes: one directory per checkpoint holding only state.json.
@@ -1130,6 +1235,11 @@ pub fn run_crash(s: &mut Src, ctx: &mut Ctx) -> Verdict {
             if let Err(v) = j.judge(&format!("state.json truncated to {} of {} bytes", k, n), true, false) {
                 return v;
             }
+            if k == 0 || k == n / 2 || k + 1 == n {
+                if let Err(v) = j.judge_restart(&format!("state.json truncated to {} of {} bytes", k, n), false, true) {
+                    return v;
+                }
+            }
         }
     }
     if shared {
@@ -1152,10 +1262,16 @@ pub fn run_crash(s: &mut Src, ctx: &mut Ctx) -> Verdict {
         if let Err(v) = j.judge("empty checkpoint directory", true, false) {
             return v;
         }
+        if let Err(v) = j.judge_restart("empty checkpoint directory", false, true) {
+            return v;
+        }
         if let Err(e) = std::fs::remove_dir(&b_dir) {
             return io("remove checkpoint dir", e);
         }
         if let Err(v) = j.judge("no checkpoint directory", true, false) {
+            return v;
+        }
+        if let Err(v) = j.judge_restart("no checkpoint directory", false, false) {
             return v;
         }
         if let Err(e) = std::fs::create_dir_all(&b_dir) {
